@@ -4,6 +4,7 @@ CONSTANTS
  Shapes <- ShOk1
  MaxFaults = 1
  MaxCrashes = 1
+ MaxIdxLoss = 0
  InlineAt = 2
  Interval = 1
  MBs = {80}
